@@ -82,33 +82,34 @@ type machine struct {
 	di     int
 	trace  []decision
 
-	globals   map[*ssa.Global]*value
-	initDone  map[*ssa.Package]bool
-	arrays    []arrInfo
-	nondets   []nondetRec
-	steps     int
-	depth     int
-	curInstr  ssa.Instruction
-	curFn     *ssa.Function
-	allocMax  int64
-	witnesses []string
-	asserts   []assertRec
-	violation *violationRec
-	unknowns  int
-	onces     map[*value]bool
-	onceState map[*value]int
-	pools     map[*value][]value
-	mutexes   map[*value]bool
-	side      map[string]value // engine-side state for harness models
-	now       *Term            // last clock instant
-	entered   map[*ssa.Function]int
-	notes     []string
-	model     map[string]uint64 // an assignment satisfying pc, or nil
-	memo      map[*Term]uint64
+	globals    map[*ssa.Global]*value
+	initDone   map[*ssa.Package]bool
+	arrays     []arrInfo
+	nondets    []nondetRec
+	steps      int
+	depth      int
+	curInstr   ssa.Instruction
+	curFn      *ssa.Function
+	allocMax   int64
+	witnesses  []string
+	asserts    []assertRec
+	violation  *violationRec
+	unknowns   int
+	onces      map[*value]bool
+	onceState  map[*value]int
+	pools      map[*value][]value
+	mutexes    map[*value]bool
+	side       map[string]value // engine-side state for harness models
+	now        *Term            // last clock instant
+	entered    map[*ssa.Function]int
+	notes      []string
+	model      map[string]uint64 // an assignment satisfying pc, or nil
+	memo       map[*Term]uint64
 	hiddenVars []*Term
 	inDecide   bool
 	unwind     int
 	thr        *threadsState
+	digest     []string
 }
 
 type violationRec struct {
@@ -199,7 +200,7 @@ func (m *machine) decide(cond *Term) bool {
 		if take {
 			other = m.ctx.Not(cond)
 		}
-		r := m.chk( other)
+		r := m.chk(other)
 		if r == Unknown {
 			m.unknowns++
 			m.note("unknown on feasibility query at " + m.where())
@@ -211,7 +212,7 @@ func (m *machine) decide(cond *Term) bool {
 			m.w.push(alt)
 		}
 	} else {
-		rT := m.chk( cond)
+		rT := m.chk(cond)
 		switch rT {
 		case Unsat:
 			take = false
@@ -222,7 +223,7 @@ func (m *machine) decide(cond *Term) bool {
 			} else {
 				m.fetchModel()
 			}
-			rF := m.chk( m.ctx.Not(cond))
+			rF := m.chk(m.ctx.Not(cond))
 			if rF == Unknown {
 				m.unknowns++
 				m.note("unknown on feasibility query at " + m.where())
@@ -303,7 +304,7 @@ func (m *machine) concretize(t *Term, what string) uint64 {
 		for _, e := range excl {
 			cons = m.ctx.And(cons, m.ctx.Not(m.ctx.Eq(t, m.ctx.BV(e, t.Width()))))
 		}
-		r := m.chk( cons)
+		r := m.chk(cons)
 		if r == Unsat {
 			m.end("exhausted", "")
 		}
@@ -342,6 +343,13 @@ func (m *machine) concInt(v value, what string) int {
 }
 
 func (m *machine) newVar(kind string, w int) *Term {
+	if m.eng.concrete != nil {
+		// self-test mode: a seeded concrete value instead of a symbolic variable
+		v := m.eng.concreteValue(kind, w)
+		t := m.ctx.BV(v, w)
+		m.nondets = append(m.nondets, nondetRec{Name: fmt.Sprintf("n%d_%s", len(m.nondets), kind), Term: t, Kind: kind})
+		return t
+	}
 	name := fmt.Sprintf("n%d_%s", len(m.nondets), kind)
 	t := m.ctx.Var(name, w)
 	m.nondets = append(m.nondets, nondetRec{Name: name, Term: t, Kind: kind})
